@@ -128,6 +128,11 @@ def _edges(desc):
         # Reshape whose newshape holds array-valued components: m itself, and
         # two equal but distinct derived expressions (shape of a slice)
         outs["expand_sym"] = pt.expand_dims(p, 0) * 2
+        # a size parameter that is reachable ONLY through the shape of index
+        # lambdas that also have operands (no operand carries it)
+        kb = pt.make_size_param("kb")
+        xb = pt.make_placeholder("xb", (4,), np.float64)
+        outs["bcast_sym"] = pt.broadcast_to(xb, (kb, 4))
         # a data wrapper whose shape is symbolic (its shape is a field that
         # copying mappers must map like everyone else's)
         dw = (pt.make_placeholder("dwp", (m,), np.float64)
@@ -172,6 +177,13 @@ def _edges(desc):
         xf3 = xf * 3
         outs["send_same"] = pt.staple_distributed_send(
             xf3, dest_rank=1, comm_tag=9, stapled_to=xf3)
+    if "send" in kinds and "shape" in kinds:
+        # a receive with a symbolic shape: its size parameter is reachable
+        # only through the receive's shape
+        kr = pt.make_size_param("kr")
+        rv = pt.make_distributed_recv(src_rank=0, comm_tag=13,
+                                      shape=(kr, 4), dtype=np.float64)
+        outs["recv_sym"] = rv.T
     if "nested" in kinds:
         # nested, shared functions: the first function met (f1) calls g,
         # whose body contains a call itself, and g is called again later
@@ -194,6 +206,11 @@ def _edges(desc):
         r0, r1 = pt.trace_call(f, s, s)
         outs["call0"] = r0
         outs["call1"] = r1 + s
+        # a second call site of the very same FunctionDefinition object
+        call = r0._container
+        again = call.function(**{k: pt.roll(v, 1)
+                                 for k, v in call.bindings.items()})
+        outs["call_same_def"] = again[1] - again[0]
         if desc.get("call_twice"):
             # a second trace of the same function: an equal but distinct
             # FunctionDefinition (C20: counted as a duplicate)
